@@ -8,10 +8,9 @@ CONSTANTS
   ClearOnModeChange = TRUE
   DiscoverPassesMode = TRUE
   StoreOnLoad = TRUE
-  Depth = 8
+  Depth = 12
   Hist = FALSE
-CONSTRAINT Bound
-CONSTRAINT Emit
+CONSTRAINT Cons
 CHECK_DEADLOCK FALSE
 VIEW View
 INVARIANT TypeOK
